@@ -137,6 +137,48 @@ def restoreWork (w : WS) : List Bytes → Res (List Entry)
       let here := if asDir then IndexOps.byDir w.index p else w.index.filter (fun e => e.path == p)
       (restoreWork w rest).map (here ++ ·)
 
+/-! ### `goit restore --staged args` -/
+
+/-- the id HEAD's snapshot holds for a path (`GetNode` on HEAD's tree finds a *file* there; for the trees
+    Goit writes that is exactly membership in the snapshot: `C07.getNode_build`) -/
+def snapId (snap : List Entry) (p : Bytes) : Option Bytes := (snap.find? (fun e => e.path == p)).map (·.id)
+
+/-- `restoreIndex`: the staged entry of one path becomes HEAD's entry (removed if HEAD has none) -/
+def restoreIndexOne (idx snap : List Entry) (p : Bytes) : Res (List Entry) :=
+  match snapId snap p with
+  | some id => (IndexOps.update idx id p).map (·.2)
+  | none => if IndexOps.found idx p then IndexOps.delete idx p else .err
+
+/-- the loop over the paths of a directory argument; stops at the first failure, keeping what was done -/
+def rsFold (snap : List Entry) : List Bytes → List Entry → Bool × List Entry
+  | [], idx => (true, idx)
+  | p :: ps, idx =>
+    match restoreIndexOne idx snap p with
+    | .ok idx' => rsFold snap ps idx'
+    | _ => (false, idx)
+
+/-- the paths a directory argument restores: what is staged beneath it, and what HEAD holds beneath it -/
+def stagedDirPaths (idx snap : List Entry) (p : Bytes) : List Bytes :=
+  (IndexOps.byDir idx p).map (·.path) ++ (snap.filter (fun t => IndexOps.under p t.path)).map (·.path)
+
+/-- `goit restore --staged args` (with a HEAD commit): `(succeeded, staging area afterwards)`; an error
+    on a later argument keeps the changes already made -/
+def restoreStagedArgs (snap : List Entry) : List Bytes → List Entry → Bool × List Entry
+  | [], idx => (true, idx)
+  | a :: rest, idx =>
+    let p := cleanPath a
+    let isDirArg := snap.any (fun t => IndexOps.under p t.path) || IndexOps.isDir idx p
+    let isFileArg := IndexOps.found idx p || (snapId snap p).isSome
+    match rsFold snap (if isDirArg then stagedDirPaths idx snap p else []) idx with
+    | (false, idx1) => (false, idx1)
+    | (true, idx1) =>
+      if isFileArg then
+        match restoreIndexOne idx1 snap p with
+        | .ok idx2 => restoreStagedArgs snap rest idx2
+        | _ => (false, idx1)
+      else if !isDirArg then (false, idx1)
+      else restoreStagedArgs snap rest idx1
+
 /-- `Index.Reset(hash)`: commit → its tree → `walkTree` → `getEntriesFromTree`; the new staging area -/
 def resetEntries (H : HashFn) (s : Store) (depth : Nat) (commitId : Bytes) : Res (List Entry) :=
   match Store.get H s commitId with
